@@ -630,56 +630,7 @@ func (s *Sim) adoptConfig(t *model.Topo) {
 
 // mutateTopo derives a new configuration: grow, shrink, move a range to another pool, change node subnets.
 func (s *Sim) mutateTopo() *model.Topo {
-	rng := s.rng
-	old := s.Topo
-	nt := &model.Topo{Nodes: old.Nodes}
-	for _, p := range old.Pools {
-		q := p
-		q.Ranges = append([][2]uint32(nil), p.Ranges...)
-		q.NodeSubnets = append([]model.Subnet(nil), p.NodeSubnets...)
-		nt.Pools = append(nt.Pools, q)
-	}
-	i := rng.Intn(len(nt.Pools))
-	p := &nt.Pools[i]
-	switch rng.Intn(4) {
-	case 0: // shrink: drop or trim a range
-		j := rng.Intn(len(p.Ranges))
-		if p.Ranges[j][0] < p.Ranges[j][1] && rng.Intn(2) == 0 {
-			p.Ranges[j][1]--
-		} else if len(p.Ranges) > 1 {
-			p.Ranges = append(p.Ranges[:j:j], p.Ranges[j+1:]...)
-		} else if len(nt.Pools) > 1 {
-			nt.Pools = append(nt.Pools[:i:i], nt.Pools[i+1:]...)
-		}
-	case 1: // grow: extend the last range upward if it stays inside the subnet and clear of others
-		j := len(p.Ranges) - 1
-		hi := p.Ranges[j][1] + 1
-		sz := uint32(1) << (32 - uint(p.Subnet.Bits))
-		top := (p.Subnet.Base & p.Subnet.Mask()) + sz - 1
-		if hi < top && hi+1 != p.Gateway && hi != p.Gateway && !usedByOthers(nt, i, hi) && !usedByOthers(nt, i, hi+1) {
-			p.Ranges[j][1] = hi
-		}
-	case 2: // change node subnets: take over another pool's list
-		k := rng.Intn(len(nt.Pools))
-		p.NodeSubnets = append([]model.Subnet(nil), nt.Pools[k].NodeSubnets...)
-	case 3: // drop a whole pool
-		if len(nt.Pools) > 1 {
-			nt.Pools = append(nt.Pools[:i:i], nt.Pools[i+1:]...)
-		}
-	}
-	return nt
-}
-
-func usedByOthers(t *model.Topo, self int, u uint32) bool {
-	for i, p := range t.Pools {
-		if i == self {
-			continue
-		}
-		if p.Has(u) || p.Gateway == u {
-			return true
-		}
-	}
-	return false
+	return model.MutateTopo(s.rng, s.Topo)
 }
 
 // ---------- HTTP API steps ----------
